@@ -3,8 +3,8 @@
 Also hosts the case generators and the Python reference shared with C12 (same engine `tendril`)."""
 PROP = "C11"
 ENGINE = "tendril"
-LEAN_TARGETS = ["H5V.Props.C11", "H5V.Lemmas.TendrilUtf8"]
-AUDIT_IMPORTS = ["H5V.Props.C11", "H5V.Lemmas.TendrilUtf8"]
+LEAN_TARGETS = ["H5V.Props.C11", "H5V.Lemmas.TendrilUtf8", "H5V.Lemmas.TendrilWtf8"]
+AUDIT_IMPORTS = ["H5V.Props.C11", "H5V.Lemmas.TendrilUtf8", "H5V.Lemmas.TendrilWtf8"]
 THEOREMS = ["H5V.Props.C11." + t for t in [
     "C11_step_refines", "C11_run_refines", "C11_reachable_wf", "C11_independent",
     "C11_checked_pop_front", "C11_checked_pop_back", "C11_checked_subtendril", "C11_push_checked",
@@ -13,7 +13,11 @@ THEOREMS = ["H5V.Props.C11." + t for t in [
     "laws_bytes", "laws_ascii", "laws_latin1",
 ]] + ["H5V.Lemmas.Tendril.Utf8." + t for t in [
     "laws_utf8", "C11_utf8_valid", "utf8_valid_append", "utf8_suffix_exact", "utf8_prefix_exact",
-    "utf8_subseq_exact", "utf8_encode_valid", "utf8_chars_cut", "whole0_eq", "validUtf8_iff"]]
+    "utf8_subseq_exact", "utf8_encode_valid", "utf8_chars_cut", "whole0_eq", "validUtf8_iff"]] + [
+    "H5V.Lemmas.Tendril.Wtf8." + t for t in [
+        "laws_wtf8_partial", "not_laws_wtf8", "wtf8Validate_iff", "wtf8_push_valid", "wtf8_fixup_trivial",
+        "wtf8_suffix_exact", "wtf8_prefix_exact", "wtf8_subseq_exact", "wtf8_fixup_ok", "wtf8_join_encode"]] + [
+    "H5V.Props.C11.Laws.toFx"]
 TRUSTED = [
     "Lean 4 kernel; axioms ⊆ {propext, Classical.choice, Quot.sound} (audited per run)",
     "hand-written model lean/H5V/Model/Tendril.lean of tendril/src/{tendril,buf32,fmt,futf,util}.rs, tied by the "
@@ -32,8 +36,11 @@ ASSUMPTIONS = [
     "needs growth panics with OFLOW although the documented limit is 4 GB (C11_witness_oflow_2gib, confirmed on the "
     "real code outside the protocol) — outside the tested range",
     "the refinement theorems are proved for Bytes, ASCII, Latin1 and UTF8 (Laws instances). WTF-8 is not an instance "
-    "of Laws (its concatenation has the surrogate fix-up, the specification of Laws is plain append); it is covered "
-    "by C12's safety theorems, the correspondence and the Python reference. The defect this check found in "
+    "of Laws (not_laws_wtf8: its concatenation has the surrogate fix-up, the specification of Laws is plain append); "
+    "its format laws with fix-up are proved (laws_wtf8_partial : LawsFx — validation exact on parts of valid "
+    "strings, push with fix-up keeps validity, no fix-up inside a valid string) but the refinement theorem is not "
+    "yet re-stated over LawsFx (needs a buffer-level validity invariant for the zero-copy merge of adjacent views); "
+    "until then WTF-8 is covered by C12's safety theorems, the correspondence and the Python reference. The defect this check found in "
     "WTF8::validate (stray continuation byte accepted; C11_witness_wtf8_validate_pinned) is fixed in /repo "
     "(218f57f) and the model follows the fix (C11_wtf8_validate_rejects_stray); corpus/C11/wtf8_validate.case is "
     "the regression corpus",
